@@ -92,6 +92,7 @@ def sz : SVal → Nat
   | .record _ fields => szf fields + 1
   | .map es => sze es + 1
   | .mapRaw ops => szo ops + 1
+  | .unitVariant _ _ _ => 2
   | .newtypeVariant _ _ _ v => sz v + 2
   | .tupleVariant _ _ _ items => szs items + 3
   | .structVariant _ _ _ fields => szf fields + 3
